@@ -219,19 +219,34 @@ def persist_rule(rep, prog, cfg):
                   "the buffer handed to the read (%s) and to ResponseBuilder::parse (%s) is not the connection's persistent receive buffer %s"
                   % (read_f, parse_f, buf))
         bad = []
+        g = Cfg(b)
+        # blocks reached only through the true edge of `<buffer>.is_empty()`: nothing is buffered there, so replacing or
+        # clearing the buffer discards nothing (e.g. releasing an oversized allocation between responses)
+        empty_only = set()
+        for bb, t in b.calls():
+            if "bytes::bytes_mut::BytesMut::is_empty" in callee_names(t) and t["args"] and ref_field_of_local(b, op_local(t["args"][0])) == buf \
+                    and t.get("target") is not None:
+                from ..tables import branch_on_bool
+                tb, fb = branch_on_bool(b, t["target"], t["dest"]["l"])
+                if tb is not None:
+                    region = reach(g.succs, [tb]) - reach(g.succs, [fb], avoid=[tb]) - reach(g.succs, [0], avoid=[tb])
+                    # ... and before the next read into the buffer
+                    stop = {x for x, t2 in b.calls() if any(n in READS for n in callee_names(t2))}
+                    empty_only |= (reach(g.succs, [tb], avoid=stop) & region)
         for bb, t in b.calls():
             ns = callee_names(t)
             if any(n in ("bytes::bytes_mut::BytesMut::clear", "bytes::bytes_mut::BytesMut::truncate", "bytes::bytes_mut::BytesMut::split_to",
                          "bytes::bytes_mut::BytesMut::advance", "bytes::buf::buf_impl::Buf::advance", "bytes::bytes_mut::BytesMut::split",
                          "core::mem::take", "core::mem::replace") for n in ns) and t["args"]:
-                if ref_field_of_local(b, op_local(t["args"][0])) == buf:
+                if ref_field_of_local(b, op_local(t["args"][0])) == buf and bb not in empty_only:
                     bad.append(ns[0])
         # replacing the buffer wholesale or resetting the byte count to a constant discards what is buffered
         for bb, i, st in b.stmts():
             if st["k"] == "assign" and st["place"]["p"]:
                 f = last_named_field(st["place"])
                 if f == buf and not any(isinstance(e, dict) and ("idx" in e or "cidx" in e or "sub" in e) for e in st["place"]["p"]):
-                    bad.append("assignment to %s" % buf)
+                    if bb not in empty_only:
+                        bad.append("assignment to %s" % buf)
                 elif f is not None and f != buf and f in ("total_received",) and st["rv"]["k"] == "use" and op_const(st["rv"]["op"]) is not None:
                     bad.append("%s = constant" % f)
         # the same in closures nested in receive (e.g. an error-path callback capturing the buffer): a shortening call
